@@ -3,6 +3,9 @@
 package dv
 
 import (
+	"sync/atomic"
+	"unsafe"
+
 	"github.com/named-data/ndnd/dv/nfdc"
 	"github.com/named-data/ndnd/dv/table"
 	ndn_sync "github.com/named-data/ndnd/std/sync"
@@ -69,4 +72,16 @@ func (dv *Router) VerifRestore(st *VerifRouterState) {
 	dv.fib.VerifRestore(st.fib)
 	dv.pfxSvs.VerifRestore(st.svs)
 	dv.nfdc.VerifDrain()
+}
+
+// VerifMutexLock / VerifMutexUnlock let the harness hold the router's single mutex while it lines
+// up goroutines behind it (see dvsim.Sim.DeadCheckRace): whoever blocks on dv.mutex first gets it
+// first once the harness lets go (sync.Mutex queues waiters FIFO).
+func (dv *Router) VerifMutexLock()   { dv.mutex.Lock() }
+func (dv *Router) VerifMutexUnlock() { dv.mutex.Unlock() }
+
+// VerifMutexWaiters reads the number of goroutines blocked in dv.mutex.Lock() from the mutex state
+// word (sync.Mutex{state int32; sema uint32}, waiter count in state>>3; Go 1.18..1.24).
+func (dv *Router) VerifMutexWaiters() int {
+	return int(atomic.LoadInt32((*int32)(unsafe.Pointer(&dv.mutex))) >> 3)
 }
